@@ -4,12 +4,13 @@
 (* "Bluray disc # Encryption") and the 3k3y masking view (fs.ISO3k3y).       *)
 (*                                                                           *)
 (* Sector 0 starts with the table of PLAIN regions: count (be32), 4 pad      *)
-(* bytes, then count pairs <<start, end>> of sector numbers (be32).  As      *)
-(* implemented by ps3netsrv: the sectors between two consecutive plain       *)
-(* regions, [plain[i].end, plain[i+1].start), are stored encrypted, each     *)
-(* 2048-byte sector AES-128-CBC with an IV holding the sector number and the *)
-(* key derived from the disc key.  (The wiki's inclusive-end reading is a    *)
-(* deviation that is deliberately not demanded.)                             *)
+(* bytes, then count pairs <<first, last>> of sector numbers (be32), both    *)
+(* inclusive (the format's reading: tables of real discs end regions on      *)
+(* ...3F / ...FF, and this project's own image generator declares the whole  *)
+(* volume as [0, size - 1]).  The sectors strictly between two consecutive   *)
+(* plain regions are stored encrypted, each 2048-byte sector AES-128-CBC     *)
+(* with an IV holding the sector number and the key derived from the disc    *)
+(* key.                                                                      *)
 (*                                                                           *)
 (* The cipher itself is not modelled: the harness reports for every segment  *)
 (* of returned bytes which candidate it equals - the stored bytes ("raw"),   *)
@@ -27,16 +28,16 @@ WellFormed(regions, count) ==
   /\ count = P(Len(regions))
   /\ Len(regions) >= 2
   /\ regions[1][1] = 0
-  /\ \A i \in DOMAIN regions : regions[i][1] < regions[i][2]
-  /\ \A i \in 2..Len(regions) : regions[i - 1][2] <= regions[i][1]
+  /\ \A i \in DOMAIN regions : regions[i][1] <= regions[i][2]
+  /\ \A i \in 2..Len(regions) : regions[i - 1][2] < regions[i][1]
 ValidTable(regions, count) ==
   /\ count = P(Len(regions))
   /\ Len(regions) >= 2 /\ Len(regions) <= MaxRegions
   /\ regions[1][1] = 0
-  /\ \A i \in DOMAIN regions : regions[i][1] < regions[i][2]
-  /\ \A i \in 2..Len(regions) : regions[i - 1][2] <= regions[i][1]
+  /\ \A i \in DOMAIN regions : regions[i][1] <= regions[i][2]
+  /\ \A i \in 2..Len(regions) : regions[i - 1][2] < regions[i][1]
 
-Encrypted(regions, s) == \E i \in 2..Len(regions) : regions[i - 1][2] <= s /\ s < regions[i][1]
+Encrypted(regions, s) == \E i \in 2..Len(regions) : regions[i - 1][2] < s /\ s < regions[i][1]
 
 HeaderBytes(regions) == 8 + 8 * Len(regions)
 MaskFrom == 3952    \* 0xF70: 3k3y watermark, key and filler ...
